@@ -18,6 +18,11 @@ def observe(spec, inputs):
         P = _poly(n, spec, inputs)
         if spec.get("warm"):
             C.nd_warm(P)
+        if spec.get("warm") == "queries":
+            P.tighten_column_bounds()
+            P.reducable_columns_approx()
+            P.reducable_rows()
+            P.column_bounds()
         if spec["part"] == "rows":
             out["rr"] = [int(v) for v in P.reducable_rows()]
         elif spec["part"] == "cols":
